@@ -7,6 +7,8 @@ Line protocol of model `naming` (C11, C12, C13).  Service keys are `ns|group|nam
   del svc= ip= port= cid=<-|id> now= | rmclient <cid> now= | rmclientc <cid> now= | timecheck now=
   rmservice svc= now= | range now= | setprotect svc= p=<permille>
   list svc= ho=<0|1> | all svc= | info | clients | audit
+  updbatch now= | <inst> | <inst> …   delbatch now= | <inst> | …   rmclients <cid>… now=     (what a peer's sync sends)
+  ipage svc= ho= size= idx=   selectone svc=   probe svc= ip= port= ok=<0|1> now=
 -/
 namespace RNacos.Driver.NamingDrv
 open RNacos RNacos.Naming RNacos.Driver
@@ -45,6 +47,21 @@ def sorted (l : List String) : List String := l.mergeSort (· ≤ ·)
 
 def skeyStr (k : SKey) : String := s!"{k.ns}/{k.group}/{k.service}"
 
+/-- groups of `k=v` tokens separated by `|` (the instances of a batch); groups without `svc=` are not instances -/
+def splitGroups (ws : List String) : List (List String) :=
+  (ws.foldr (fun w acc => if w == "|" then [] :: acc else
+      match acc with
+      | g :: rest => (w :: g) :: rest
+      | [] => [[w]]) [[]]).filter fun g => kv g "svc" != ""
+
+/-- `InstanceShortKey`'s derived order: address string, then port -/
+def shortLe (a b : String × Nat) : Bool := a.1 < b.1 || (a.1 == b.1 && a.2 ≤ b.2)
+
+/-- `get_instance_page`: the filtered list ordered by short key, one page of it -/
+def instPage (l : List Inst) (size idx : Nat) : Nat × List Inst :=
+  let off := if idx == 0 then 0 else size * (idx - 1)
+  (l.length, ((l.mergeSort fun a b => shortLe (a.ip, a.port) (b.ip, b.port)).drop off).take size)
+
 def allInstances (n : Naming) : String :=
   joinOrDash (sorted (n.services.flatMap fun e => e.2.insts.map fun p =>
     s!"{skeyStr e.1}@{p.2.ip}:{p.2.port}:h{b01 p.2.healthy}:p{b01 p.2.ephemeral}:c{if p.2.clientId.isEmpty then "-" else p.2.clientId}"))
@@ -72,6 +89,16 @@ def step (n : Naming) (ws : List String) : Naming × String :=
   | "probe" :: rest =>
     let i := instOf rest
     (n.probe (parseSKey (kv rest "svc")) i.short (kv rest "ok" == "1"), "ok")
+  -- what another node's sync sends: a batch of instances (`UpdateBatch`: no tag, from sync), a batch of removals
+  -- (`DeleteBatch`), the clients of a node that went away (`RemoveClientsFromCluster`)
+  | "updbatch" :: rest =>
+    ((splitGroups rest).foldl (fun acc g => acc.updateInstance (parseSKey (kv g "svc")) (instOf g) none true now 0) n, "ok")
+  | "delbatch" :: rest =>
+    ((splitGroups rest).foldl (fun acc g =>
+      (acc.removeInstance (parseSKey (kv g "svc")) (instOf g).short (some (instOf g).clientId) now).1) n, "ok")
+  | "rmclients" :: cs =>
+    let n2 := (cs.filter fun c => !c.contains '=').foldl (fun acc c => acc.removeClient c now) n
+    (n2, s!"ok before={allInstances n} after={allInstances n2}")
   | "rmclient" :: c :: _ =>
     let n2 := n.removeClient c now
     (n2, s!"ok before={allInstances n} after={allInstances n2}")
@@ -97,6 +124,14 @@ def step (n : Naming) (ws : List String) : Naming × String :=
     let k := parseSKey (kv rest "svc")
     let l := n.queryList k (kv rest "ho" == "1")
     (n, s!"insts {joinOrDash (sorted (l.map (showInst · false)))} all={joinOrDash (sorted ((n.queryAll k).map (showInst · false)))} sinfo={joinOrDash (sorted (l.map fun i => s!"{i.ip}:{i.port}"))}")
+  | "ipage" :: rest =>
+    let k := parseSKey (kv rest "svc")
+    let (total, page) := instPage (n.queryList k (kv rest "ho" == "1")) ((kv rest "size").toNat?.getD 0) ((kv rest "idx").toNat?.getD 0)
+    (n, s!"ipage total={total} page={joinOrDash (page.map (showInst · false))} all={joinOrDash (sorted ((n.queryAll k).map (showInst · false)))}")
+  | "selectone" :: rest =>
+    -- a random choice among the healthy enabled instances: the model states the candidates
+    let cands := (n.queryAll (parseSKey (kv rest "svc"))).filter fun i => i.healthy && i.enabled
+    (n, s!"selectone got=* cands={joinOrDash (sorted (cands.map fun i => s!"{i.ip}:{i.port}"))}")
   | "all" :: rest => (n, s!"insts {joinOrDash (sorted ((n.queryAll (parseSKey (kv rest "svc"))).map (showInst · true)))}")
   | ["info"] =>
     let l := sorted (n.services.map fun e => s!"{e.1.group}|{e.1.service}:{e.2.instSize}:{e.2.healthySize}")
@@ -195,6 +230,43 @@ def listVerdict (op : List String) (ans : List String) (protect : Nat) : String 
                 else s!"spec FAIL QueryServiceInfo returned {l}, the registered enabled instances give {sorted (want.map addr)}"
     | none => "spec ok"
 
+/-- C12 through the paged query: the page is the corresponding slice of the enabled (healthy-only unless protected)
+instances in short-key order, the total their number -/
+def pageVerdict (op : List String) (ans : List String) (protect : Nat) : String :=
+  let ho := kv op "ho" == "1"
+  let size := (kv op "size").toNat?.getD 0
+  let idx := (kv op "idx").toNat?.getD 0
+  let off := if idx == 0 then 0 else size * (idx - 1)
+  let fieldOf (k : String) : String := match ans.find? (·.startsWith (k ++ "=")) with
+    | some t => (t.drop (k.length + 1)).toString
+    | none => ""
+  let got := splitList (fieldOf "page")
+  let raw := splitList (fieldOf "all")
+  let enabled := raw.filter fun i => (i.splitOn ":").contains "e1"
+  let total := enabled.length
+  let healthy := (enabled.filter fun i => (i.splitOn ":").contains "h1").length
+  let want :=
+    if total > 0 && healthy * 1000 ≤ protect * total then enabled.map fun i => i.replace ":h0:" ":h1:"
+    else if ho then enabled.filter fun i => (i.splitOn ":").contains "h1" else enabled
+  let keyOf (i : String) : String × Nat := ((i.splitOn ":").getD 0 "", ((i.splitOn ":").getD 1 "").toNat?.getD 0)
+  let ordered := want.mergeSort fun a b => shortLe (keyOf a) (keyOf b)
+  if fieldOf "total" != toString want.length then
+    s!"spec FAIL paged instance query reports total {fieldOf "total"}, the registered enabled instances are {want.length}"
+  else if got != (ordered.drop off).take size then
+    s!"spec FAIL paged instance query returned {got}, the registered enabled instances give {(ordered.drop off).take size}"
+  else "spec ok"
+
+/-- `SelectOneInstance`: one of the healthy enabled instances, none only when there is none -/
+def selectVerdict (ans : List String) : String :=
+  let fieldOf (k : String) : String := match ans.find? (·.startsWith (k ++ "=")) with
+    | some t => (t.drop (k.length + 1)).toString
+    | none => ""
+  let cands := splitList (fieldOf "cands")
+  let got := fieldOf "got"
+  if got == "-" then (if cands.isEmpty then "spec ok" else s!"spec FAIL no instance selected although {cands} are healthy and enabled")
+  else if cands.contains got then "spec ok"
+  else s!"spec FAIL selected {got}, which is not among the healthy enabled instances {cands}"
+
 /-- C12: a closing connection removes exactly its own ephemeral instances -/
 def rmclientVerdict (cid : String) (ans : String) : String :=
   let before := splitList (field ans "before")
@@ -214,6 +286,11 @@ def specOp (s0 : SpecSt) (op ans : List String) : SpecSt × String :=
   -- a service that is removed takes its protection threshold with it (a later registration creates it with the default)
   | "rmservice" :: rest => (if ans == ["ok"] then { s with protect := AL.erase s.protect (kv rest "svc") } else s, "-")
   | "list" :: rest => (s, listVerdict rest ans ((AL.get? s.protect (kv rest "svc")).getD 0))
+  | "ipage" :: rest => (s, pageVerdict rest ans ((AL.get? s.protect (kv rest "svc")).getD 0))
+  | "selectone" :: _ => (s, selectVerdict ans)
+  | "updbatch" :: _ => ({ s with ruled := false }, "-")
+  | "delbatch" :: _ => ({ s with ruled := false }, "-")
+  | "rmclients" :: _ => ({ s with ruled := false }, "-")
   | "rmclient" :: c :: _ => ({ s with ruled := false }, rmclientVerdict c line)
   | "rmclientc" :: c :: _ => ({ s with ruled := false }, rmclientVerdict c line)
   | "upd" :: rest =>
